@@ -63,8 +63,11 @@ static void wire_check(int hid, const uint8_t* b, int n)
     if (why && !wire_fail) { char h[600]; hexs(h, b, n > 280 ? 280 : n); snprintf(wire_info, sizeof wire_info, "connection h%d at ops-file offset %ld wrote %s: %s", hid, (long) ftell(ops), h, why); }
     if (why) wire_fail++;
 }
+/* ---- C11 oracle: a TESTFR act of the server that stays unconfirmed for t1 closes the connection, whatever else arrives ---- */
+static int t1_fail = 0; static char t1_info[300]; static uint64_t tf_sent_at[4096]; static int cfg_t1s = 0;
 static void on_write(SimSocket* s, const uint8_t* buf, int n) { static char h[600]; hexs(h, buf, n); logf_("tx h%d %s", hid_of_sock[s->id], h); n_tx++;
     wire_check(hid_of_sock[s->id], buf, n);
+    { int hh = hid_of_sock[s->id]; if (n == 6 && buf[2] == 0x43 && hh >= 0 && hh < 4096 && tf_sent_at[hh] == 0) tf_sent_at[hh] = sim_time(); }
     if (slave && slave->serverMode == CS104_MODE_SINGLE_REDUNDANCY_GROUP && n > 6 && (buf[2] & 1) == 0) evq_seen(hid_of_sock[s->id], buf + 6, n - 6); }
 static int kwin_fail = 0; static char kwin_info[300];
 /* ---- C18 oracle: event grammar per connection OPENED (ACTIVATED DEACTIVATED)* ACTIVATED? CLOSED?, accounting ---- */
@@ -144,7 +147,7 @@ static void summary(void)
         if (c && c->isUsed) {
             { int cnt = 0; if (c->oldestSentASDU != -1) { int j = c->oldestSentASDU; for (;;) { cnt++; if (j == c->newestSentASDU || cnt > 40000) break; j = (j + 1) % c->maxSentASDUs; } }
               if (cnt > slave->conParameters.k) { if (!kwin_fail) snprintf(kwin_info, sizeof kwin_info, "connection h%d at ops-file offset %ld has %d unacknowledged I-frames outstanding with k=%d", hid_of(c), (long) ftell(ops), cnt, slave->conParameters.k); kwin_fail++; } }
-            fprintf(impl, " [%d:h%d st=%d run=%d vs=%d vr=%d un=%d rb=%d win=", i, hid_of(c), c->state, c->isRunning, c->sendCount, c->receiveCount, c->unconfirmedReceivedIMessages, c->recvBufPos);
+            fprintf(impl, " [%d:h%d st=%d run=%d vs=%d vr=%d un=%d rb=%d tf=%d win=", i, hid_of(c), c->state, c->isRunning, c->sendCount, c->receiveCount, c->unconfirmedReceivedIMessages, c->recvBufPos, c->waitingForTestFRcon ? 1 : 0);
             if (c->oldestSentASDU == -1) fprintf(impl, "-");
             else { int j = c->oldestSentASDU; for (;;) { fprintf(impl, "%s%d", j == c->oldestSentASDU ? "" : ",", c->sentASDUs[j].seqNo); if (j == c->newestSentASDU) break; j = (j + 1) % c->maxSentASDUs; } }
             fprintf(impl, "]");
@@ -174,7 +177,7 @@ static void op_new(int mode, int k, int w, int t0, int t1, int t2, int t3, int m
     mem_forget_all();
     sim_reset(); n_hid = 0; n_answers = answers_pos = 0; evq_cnt = 0;
     fprintf(ops, "s.new %d %d %d %d %d %d %d %d %d %d %d %d %d\n", mode, k, w, t0, t1, t2, t3, maxopen, lowq, highq, rep, scot, sca); fflush(ops);
-    slave = CS104_Slave_create(lowq, highq); cur_mode = mode;
+    slave = CS104_Slave_create(lowq, highq); cur_mode = mode; cfg_t1s = t1; memset(tf_sent_at, 0, sizeof tf_sent_at);
     CS104_Slave_setServerMode(slave, (CS104_ServerMode) mode);
     CS104_APCIParameters ap = CS104_Slave_getConnectionParameters(slave);
     ap->k = k; ap->w = w; ap->t0 = t0; ap->t1 = t1; ap->t2 = t2; ap->t3 = t3;
@@ -212,11 +215,17 @@ static int op_conn(const char* peer)
     if (n_hid < 4096) { next_ns[n_hid] = 0; ev_state[n_hid] = 0; last_ev_idx[n_hid] = -1; if (n_hid < 64) memset(ev_sent[n_hid], 0, sizeof ev_sent[0]); }
     fprintf(impl, "h%d\n", n_hid); return n_hid++;
 }
-static void op_rx(int h, const uint8_t* b, int n) { static char hx[1200]; hexs(hx, b, n); fprintf(ops, "s.rx %d %s\n", h, hx); fflush(ops); sim_feed(sock_of_hid[h], b, n); fprintf(impl, "ok\n"); }
+static void op_rx(int h, const uint8_t* b, int n) { static char hx[1200]; hexs(hx, b, n); if (h >= 0 && h < 4096) for (int q = 0; q < n; q++) if (b[q] == 0x83) tf_sent_at[h] = 0; fprintf(ops, "s.rx %d %s\n", h, hx); fflush(ops); sim_feed(sock_of_hid[h], b, n); fprintf(impl, "ok\n"); }
 static void op_close(int h) { fprintf(ops, "s.close %d\n", h); fflush(ops); sim_peer_close(sock_of_hid[h]); fprintf(impl, "ok\n"); }
 static void op_wfail(int h, int v) { fprintf(ops, "s.wfail %d %d\n", h, v); fflush(ops); sock_of_hid[h]->write_fail = v; fprintf(impl, "ok\n"); }
 static void op_answers(const int* a, int n) { fprintf(ops, "s.answers"); for (int i = 0; i < n; i++) fprintf(ops, " %d", a[i]); fprintf(ops, "\n"); fflush(ops); memcpy(answers, a, n * sizeof(int)); n_answers = n; answers_pos = 0; fprintf(impl, "ok\n"); }
-static void op_tick(int dt) { n_ops++; fprintf(ops, "s.tick %d\n", dt); fflush(ops); sim_advance(dt); sim_hal_calls = 0; CS104_Slave_tick(slave); flush_obs(); }
+static MasterConnection conn_of_hid(int h);
+static void op_tick(int dt) { n_ops++; fprintf(ops, "s.tick %d\n", dt); fflush(ops); sim_advance(dt); sim_hal_calls = 0; CS104_Slave_tick(slave);
+    for (int q = 0; q < n_hid && q < 4096; q++) if (tf_sent_at[q]) { MasterConnection c = conn_of_hid(q);
+        if (!c || !c->isRunning) tf_sent_at[q] = 0;
+        else if (cfg_t1s && sim_time() > tf_sent_at[q] + (uint64_t) cfg_t1s * 1000 && !t1_fail++)
+            snprintf(t1_info, sizeof t1_info, "connection h%d at ops-file offset %ld: TESTFR act sent at %llu has not been confirmed, it is %llu now (t1 = %d s) and the connection is still open", q, (long) ftell(ops), (unsigned long long) tf_sent_at[q], (unsigned long long) sim_time(), cfg_t1s); }
+    flush_obs(); }
 static void op_enq(const uint8_t* b, int n)
 {
     static char hx[1200]; hexs(hx, b, n); fprintf(ops, "s.enq %s\n", hx); fflush(ops);
@@ -290,6 +299,53 @@ static void hpwrap(int h, int hdr)
     }
 }
 
+/* scripted (C04): an open window that straddles the 32767 -> 0 wrap, filled with events, acknowledged piece by piece */
+static void wrapack(int h, int hdr, int k)
+{
+    uint8_t f[300], a[260];
+    MasterConnection c = conn_of_hid(h); if (!c || c->state != M_CON_STATE_STARTED || c->oldestSentASDU != -1) return;
+    int before = prng_range(1, k > 1 ? k - 1 : 1);                  /* entries before the wrap */
+    op_preset(h, 32768 - before, c->receiveCount);
+    for (int i = 0; i < k; i++) { int n = rnd_asdu(a, hdr, 30); op_enq(a, n); op_tick(1); }
+    for (int round = 0; round < 4; round++) {
+        c = conn_of_hid(h); if (!c || c->oldestSentASDU == -1) return;
+        int j = c->oldestSentASDU, steps = prng_below(k), nr = c->sentASDUs[j].seqNo;
+        while (steps-- > 0 && j != c->newestSentASDU) { j = (j + 1) % c->maxSentASDUs; nr = c->sentASDUs[j].seqNo; }
+        op_rx(h, f, frame_s(f, (nr + 1) % 32768)); op_tick(1);
+        if (prng_below(2)) { int n = rnd_asdu(a, hdr, 30); op_enq(a, n); op_tick(1); }
+    }
+}
+/* scripted (C07): STOPDT act while received I-frames are unacknowledged AND transmitted events are unconfirmed: the
+ * S-frame comes first, STOPDT con only after the peer acknowledged the events */
+static void stopdt_pending(int h, int hdr)
+{
+    uint8_t f[300], a[260];
+    MasterConnection c = conn_of_hid(h); if (!c || c->state != M_CON_STATE_STARTED) return;
+    for (int i = 0; i < 2; i++) { int n = rnd_asdu(a, hdr, 20); op_enq(a, n); op_tick(1); }
+    c = conn_of_hid(h); if (!c) return;
+    int nr = c->oldestSentASDU != -1 ? c->sentASDUs[c->oldestSentASDU].seqNo : c->sendCount;
+    { int n = rnd_asdu(a, hdr, 20); op_rx(h, f, frame_i(f, c->receiveCount, nr, a, n)); op_tick(1); }
+    op_rx(h, f, frame_u(f, 0x13)); op_tick(1);
+    c = conn_of_hid(h); if (!c) return;
+    op_rx(h, f, frame_s(f, c->sendCount)); op_tick(1); op_tick(1);
+}
+/* scripted (C11): the server's TESTFR act is not confirmed, but other valid frames keep arriving: t1 must still close */
+static void testfr_nocon(int h, int t1, int t3)
+{
+    uint8_t f[300];
+    MasterConnection c = conn_of_hid(h); if (!c) return;
+    op_tick(t3 * 1000 + 50); op_tick(1);                            /* TESTFR act goes out */
+    for (int i = 0; i < 3; i++) {
+        c = conn_of_hid(h); if (!c) return;
+        int kind = prng_below(3);
+        if (kind == 0) op_rx(h, f, frame_s(f, c->sendCount));
+        else if (kind == 1) op_rx(h, f, frame_u(f, 0x43));           /* our own TESTFR act: answered with con, is not a con */
+        else op_rx(h, f, frame_u(f, 0x07));
+        op_tick(t1 * 300);
+    }
+    op_tick(t1 * 400); op_tick(1); op_tick(1);
+}
+
 static void episode(bool thorough)
 {
     int mode = prng_below(3), k = prng_below(4) ? prng_range(1, 12) : prng_range(1, 3), w = prng_below(2) ? prng_range(1, 8) : prng_range(1, k / 2 > 1 ? k / 2 : 1);
@@ -315,6 +371,7 @@ static void episode(bool thorough)
             hs[nh++] = op_conn(peer); op_tick(prng_below(5));
             if (prng_below(4) == 0) { MasterConnection nc = conn_of_hid(hs[nh - 1]); if (nc) op_preset(hs[nh - 1], prng_below(2) ? 32768 - prng_range(1, 20) : (int) prng_below(32768), prng_below(2) ? 32768 - prng_range(1, 20) : (int) prng_below(32768)); }
             if (prng_below(5)) { deliver(hs[nh - 1], f, frame_u(f, 0x07)); op_tick(1); } }
+        else if (r < 6 && h >= 0) { int q = prng_below(3); if (q == 0) wrapack(h, hdr, k); else if (q == 1) testfr_nocon(h, t1, t3); else stopdt_pending(h, hdr); }
         else if (r < 7 && h >= 0 && rep > 0) burst(h, hdr, k);
         else if (r < 9 && h >= 0 && rep > 0) hpwrap(h, hdr);
         else if (r < 25) op_tick(prng_below(4) ? prng_range(0, 50) : (prng_below(2) ? prng_range(100, 1500) : prng_range(900, 1100) * prng_range(1, 4)));
@@ -420,6 +477,7 @@ int main(int argc, char** argv)
     if (wire_fail) printf("WIRE_FAIL %s\n", wire_info);
     if (kwin_fail) printf("KWIN_FAIL %s\n", kwin_info);
     if (life_fail) printf("LIFE_FAIL %s\n", life_info);
+    if (t1_fail) printf("T1_FAIL %s\n", t1_info);
     if (group_fail) printf("GROUP_FAIL %s\n", group_info);
     if (queue_fail) printf("QUEUE_FAIL %s\n", queue_info);
     printf("HISTO life_violations=%d group_violations=%d queue_violations=%d iframes_tx=%ld wire_violations=%d kwin_violations=%d replies_tracked=%ld order_violations=%d tx=%ld events=%ld asdu_callbacks=%ld closed=%ld iframes_rx=%ld sem_waits=%ld sem_max=%d sem_violations=%d deadlock=%d live_sem=%d live_sock=%d %s\n", life_fail, group_fail, queue_fail, n_iframes_tx, wire_fail, kwin_fail, n_replies_tracked, order_fail, n_tx, n_ev, n_asdu, n_closed, n_iframes_rx, sim_sem_waits, sim_sem_max_value, sim_sem_violations, sim_deadlock, sim_live_semaphores, sim_live_sockets, sim_sem_violation_where);
